@@ -633,6 +633,9 @@ func (e *Enc) encAppend(fr *Frame, st *State, cc *ssa.CallCommon, args []*Val, r
 		e.assert(implies(fits, "(forall ((j Int)) (! (=> (or (< j (+ "+off+" "+ln+")) (>= j (+ "+off+" "+nlen+"))) (= (select "+na+" j) (select (select "+h+" "+base+") j))) :pattern ((select "+na+" j))))"))
 		// common special case: appending exactly one element gives a direct equation (helps the solvers)
 		e.heapSet(st, k, sorts[i], "(store "+h+" "+nb+" "+na+")")
+		if b, ok := sl.Elem().Underlying().(*types.Basic); ok && b.Kind() == types.Uint8 && !isStr && len(keys) == 1 {
+			e.bcatFact(e.bseqTerm(na, no, nlen), e.bseqTerm("(select "+h+" "+base+")", off, ln), e.bseqTerm("(select "+h+" "+tbase+")", toff, tlen))
+		}
 	}
 	return &Val{T: rt, L: []Sc{{nb, "Int"}, {no, "Int"}, {nlen, "Int"}, {ncap, "Int"}}}
 }
